@@ -112,6 +112,9 @@ def strategy_(d, tier):
                  gnu=d.bool(0.2))
         if d.bool(0.2):
             o["werror"] = True
+        if d.bool(0.25):
+            # default target from the command line, with and without (unknown) arguments behind the name
+            o["cpuopt"] = d.choice(["6502", "Z80", "ATMEGA8", "6502:foo=1", "ATMEGA8:foo=1", "ATMEGA8:CODESEGSIZE=0"])
         return dict(kind="layout", files=[gen_layout_file(d, "s%d" % i) for i in range(nfiles)], opts=o)
     nfiles = d.weighted([(3, 1), (1, 2)])
     big = d.bool(0.35)
@@ -217,6 +220,8 @@ def argv_of(o, files):
     if o.get("maxerrors"):
         argv += ["-maxerrors", str(o["maxerrors"])]
     argv += ["-x"] * o["x"]
+    if o.get("cpuopt"):
+        argv += ["-cpu", o["cpuopt"]]
     if o["n"]:
         argv.append("-n")
     if o["gnu"]:
@@ -258,6 +263,15 @@ def execute_layout(case):
         if nm in per:
             per[nm] += 1
     nerr = sum(per.values())
+    # errors without a source position (raised while the default target is set up): they belong to every source
+    nint = len(re.findall(r"^(?:> > > )?INTERNAL[^\n]*?: (?!warning)", chan, re.M))
+    if nint:
+        classes.append("error-without-position")
+        if r.status == 0 or any(exists.values()):
+            return engine.bad("%d errors without source position were printed, exit status %s, code files %s"
+                              % (nint, r.status, sorted(k for k, v in exists.items() if v)), None, classes,
+                              chan=chan[:600], **detail)
+        return engine.ok("layout|error-without-position|" + o["cpuopt"], classes)
     nt = []
     if nerr:
         nt.append("errors")
